@@ -8,7 +8,7 @@
 (* contrast verdicts from Wcag.tla; dE values are reference CIEDE2000 in   *)
 (* 1e-4 units supplied by the harness (assumption of C03/C04).             *)
 (***************************************************************************)
-EXTENDS Wcag, PairProps, TraceKit, FiniteSets
+EXTENDS Wcag, CssColor, PairProps, TraceKit, FiniteSets
 
 VARIABLES tid, i, pair, seen, fails, incon, nt
 vars == <<tid, i, pair, seen, fails, incon, nt>>
@@ -23,11 +23,30 @@ Init == /\ tid \in 1..NTraces /\ i = 1 /\ pair = NoPair /\ seen = {}
         /\ fails = {} /\ incon = {} /\ nt = [c01 |-> 0, c02ok |-> 0, c02harm |-> 0, c03 |-> 0, c04strict |-> 0, c04chain |-> 0, c16a |-> 0, c16b |-> 0]
 Ev == Traces[tid][i]
 
+\* ---- C13: what the pair must look like when the text (or background) was given in a translucent spelling.
+\* e.comp describes the abstract input: foreground (rgb ints or H/S/L tenths), alpha an/ad, and the background as
+\* given (opaque 8-bit value, or itself translucent with alpha ban/bad - then it goes over white).
+White == <<255, 255, 255>>
+CompFails(e) ==
+  LET c == e.comp IN
+  IF c.kind = "none" THEN {}
+  ELSE (IF c.ban = c.bad THEN (IF e.bg = c.bgv THEN {} ELSE {"C13_Background"})
+        ELSE (IF WithinBlend(e.bg, c.bgv, c.ban, c.bad, White) THEN {} ELSE {"C13_BackgroundOverWhite"}))
+       \cup (IF c.kind = "rgb"
+             THEN (IF WithinBlend(e.text, c.v, c.an, c.ad, e.bg) THEN {} ELSE {"C13_CompositeOverOwnBackground"})
+                  \cup (IF c.an = c.ad /\ e.text # c.v THEN {"C13_AlphaOne"} ELSE {})
+             ELSE (IF WithinBlendMilli(e.text, HslMilli(c.h, c.s, c.l), c.an, c.ad, e.bg) THEN {} ELSE {"C13_CompositeOverOwnBackground"})
+                  \cup (IF c.an = c.ad /\ ~Admits(HslToRgb(c.h, c.s, c.l), e.text) THEN {"C13_AlphaOne"} ELSE {}))
+       \cup (IF c.an = 0 /\ e.text # e.bg THEN {"C13_AlphaZero"} ELSE {})
+ReadableFails(e) ==
+  LET lv == Level(e.text, e.bg, e.large) IN
+  IF e.readable = "" \/ lv = "CLOSE" THEN {} ELSE IF e.readable = Label(lv) THEN {} ELSE {"C13_ReadableOnComposite"}
+
 Construct ==
   /\ i <= Len(Traces[tid]) /\ Ev.e = "C"
   /\ pair' = IF Ev.valid THEN [valid |-> TRUE, text |-> Ev.text, bg |-> Ev.bg, large |-> Ev.large, spell |-> Ev.spell]
              ELSE NoPair
-  /\ fails' = fails \cup (IF Ev.valid THEN {} ELSE {"X_ConstructInvalid"})
+  /\ fails' = fails \cup (IF Ev.valid THEN CompFails(Ev) \cup ReadableFails(Ev) ELSE {"X_ConstructInvalid"})
   /\ i' = i + 1 /\ UNCHANGED <<tid, seen, incon, nt>>
 
 \* dE bound with guard band: "LE", "GT" or "CLOSE"
